@@ -163,11 +163,16 @@ ResetFrom(front, done, c) ==
        IN  ResetFrom(nxt, done \cup nxt, c)
 
 ------------------------------------------------------------------------------
-FullBuild == Nodes
+\* what a saved model holds: the cells, the ranges with a formula (array
+\* formulas, unbounded ranges) and, rebuilt while loading, the plain ranges some
+\* formula reads; a plain range nobody reads (it was only ever evaluated from
+\* outside) is not in the file
+FullBuild == {x \in Nodes : ~(/\ x \in Ranges /\ Def[x].kind = "Range"
+                               /\ \A y \in Nodes : x \notin PrecMap[y])}
 LoadedCache ==   \* from_file: every cell built, formulas uncomputed, then the
                  \* ranges are evaluated eagerly by _process_gen_graph
   LET c0 == [x \in Nodes |-> IF x \in Inputs THEN Init0[x] ELSE NoneV]
-  IN  Fill(c0, Ranges \cup Aliases)
+  IN  Fill(c0, FullBuild \cap (Ranges \cup Aliases))
 
 Init ==
   /\ inp = Init0
@@ -177,7 +182,7 @@ Init ==
   /\ IF Src = "Loaded"
      THEN /\ built = FullBuild
           /\ cache = LoadedCache
-          /\ edges = NewEdges(Nodes)
+          /\ edges = NewEdges(FullBuild)
      ELSE /\ built = {}
           /\ cache = [x \in Nodes |-> NoneV]
           /\ edges = {}
